@@ -457,7 +457,9 @@ impl<'a> RawFile<'a> {
                 warnings,
             );
         }
-        if s.ne > 255 {
+        // 256 extensible recipes are legal (TFtoPL.2014.21 aborts if ne>256):
+        // the recipes are indexed by a byte.
+        if s.ne > 256 {
             return (
                 Err(DeserializationError::TooManyExtensibleCharacters(s.ne)),
                 warnings,
